@@ -9,6 +9,15 @@ modes (cases whose mode differs from the driver's run in a worker subprocess wit
 Model: Model/Algebra.v `structs` (declared) and Model/Structs.v `xeval` (abstract evaluation computed
 from the class and the type/shape of its array parameter), `params_not_wider`, `dtypes_available`,
 sizes, promoted dtypes.  Oracle: the property itself on the implementation.
+
+Parameter grids (kinds grid:diag / grid:bdiag, leaf:gT / gQ / gH / gW / gPol ...): the shapes of the array
+parameters are enumerated ACROSS the boundary of what the constructors accept and of what broadcasts into
+the data (size-1 values, unit / extra axes, destination axes at and beyond the leaf rank on both sides,
+negative axes, mixed-rank pytrees incl. rank-0 leaves, Toeplitz band batch shapes, rotation angle shapes).
+For the diagonal classes the model has the constructors themselves (`diag_ctor`: the shape arithmetic of
+_reshape_leaves + DiagonalOperator._check_leaf_shapes): accept/refuse, the normalised axes and the leaf
+shapes of the ACTUAL mv result are compared with it, and `ctor_checked` re-computes on every existing
+diagonal object the check its constructor is supposed to have made.
 """
 from __future__ import annotations
 
@@ -732,12 +741,22 @@ def param_grid_alphabet(dt, pdt, rng=None):
     return L
 
 
-def param_grid_cases(dt, pdt, x64, rng, frac, one_method=False):
+def param_grid_core(name) -> bool:
+    """Size-1 parameters / unit and missing axes of the data: where broadcasting into the data and widening it meet."""
+    f = name.split('.')
+    if f[0] == 'gQ':
+        return f[1] in ('s', '1', '11') and f[3] in ('0', '1')
+    if f[0] == 'gT':
+        return f[1] in ('1k', '11k', '31k', 'k1', '1k1') and f[2] in ('15', '315', '21')
+    return f[0] in ('gH', 'gHpy', 'gI') or (f[0] in ('gW', 'gPol') and f[2] == '0')
+
+
+def param_grid_cases(dt, pdt, x64, rng, frac, one_method=False, core_always=False):
     L = param_grid_alphabet(dt, pdt, rng if one_method else None)
     out = []
     floaty = dt != I32
     for n in sorted(L):
-        if rng.random() >= frac:
+        if rng.random() >= frac and not (core_always and param_grid_core(n)):
             continue
         head = n.split('.')[0]
         out.append({'kind': 'leaf:' + head, 'x64': x64, 'dt': dt, 'pdt': pdt, 'let': [(n, L[n])], 'op': n})
@@ -939,7 +958,9 @@ class Check(PropertyCheck):
         'move-axis, ravel, reshape, user atoms) carry in the model the structure the real object declares: for them the '
         'declaration IS jax.eval_shape(self.mv, in_structure) by construction; the model computes the evaluation itself '
         'for identity, scalar, diagonal (+inverse), Toeplitz, QU rotation (+transpose), HWP, polariser, reshape-transpose '
-        'and the lazy transpose/inverse wrappers',
+        'and the lazy transpose/inverse wrappers; for DiagonalOperator / BroadcastDiagonalOperator / DiagonalInverseOperator '
+        'the model computes the leaf shapes from the shape of the values and axis_destination (Structs.diag_leaf_shape, '
+        'compared with the real constructors and the real mv on the parameter grid)',
         'correspondence harness harness/c05.py: operand builder, encoder (terms + type/shape of the array parameters), '
         'the independent re-computation of the guards on the real objects, the x64 worker subprocess protocol',
     ]
@@ -984,7 +1005,7 @@ class Check(PropertyCheck):
                 plan = [(dt, pdt, 1.0, 1.0, 1.0, 1.0) if (dt, pdt) == (F32, F32) else (dt, pdt, 0.5, 0.5, 0.25, 0.4) for dt, pdt in combos]
             for dt, pdt, fc, fu, fo, fp in plan:
                 out += diag_grid(dt, pdt, x64, rng, fc, fu, fo)
-                out += param_grid_cases(dt, pdt, x64, rng, fp, one_method=quick)
+                out += param_grid_cases(dt, pdt, x64, rng, fp, one_method=quick, core_always=fc >= 1.0)
         return out
 
     def rule(self):
